@@ -339,6 +339,14 @@ def draw_case(rng, ns_min=0, kind=None):
     kind = kind or rng.choice(["linear", "time", "time"])
     data = make_dataset(rng, kind)
     opts = make_options(rng, kind, data, ns_min=ns_min)
+    if rng.random() < 0.03:
+        # a crowd: well over a hundred narrow labels in one layer (C11's envelope: clusters up to 200)
+        n = rng.choice([110, 140, 170])
+        data = [{"time": (10.0 + 0.01 * (i % 7)) if kind == "linear" else dt.datetime(2020, 5, 17, 12, i % 50), "width": 4, "id": i + 1}
+                for i in range(n)]
+        opts["labella"] = {"nodeSpacing": opts["labella"].get("nodeSpacing", 3)}
+        opts["initialWidth"] = opts["initialHeight"] = 2400
+        opts.pop("domain", None)
     return data, opts, kind
 
 
@@ -517,7 +525,9 @@ def fixed_config(name):
         return data, {"domain": [dt.datetime(2009, 6, 1), dt.datetime(2011, 6, 1)], "initialWidth": 600}
     if name == "c4":
         data = [{"time": dt.datetime(2020, 2, 27) + dt.timedelta(hours=7 * i), "width": 60} for i in range(12)]
-        return data, {"direction": "up", "labella": {"maxPos": 300, "lineSpacing": 9, "nodeSpacing": 5, "stubWidth": 3}, "layerGap": 30}
+        return data, {"direction": "up", "labella": {"maxPos": 300, "lineSpacing": 9, "nodeSpacing": 5, "stubWidth": 3}, "layerGap": 30,
+                      "margin": {"left": 5, "right": 45, "top": 0, "bottom": 10},
+                      "labelPadding": {"left": 6, "right": 1, "top": 0, "bottom": 4}}
     raise KeyError(name)
 
 
@@ -536,6 +546,13 @@ def random_config(seed):
         opts["domain"] = [min(ts) - dt.timedelta(days=rng.choice([1, 30])), max(ts) + dt.timedelta(days=rng.choice([2, 90]))]
     if rng.random() < 0.3:
         opts["initialWidth"] = rng.choice([500, 700])
+    if rng.random() < 0.3:
+        opts["margin"] = {"left": rng.choice([0, 30]), "right": 10, "top": rng.choice([5, 25]), "bottom": 15}
+    if rng.random() < 0.3:
+        opts["labelPadding"] = {"left": rng.choice([0, 4]), "right": 3, "top": rng.choice([1, 5]), "bottom": 2}
+    if rng.random() < 0.2:
+        opts["dotRadius"] = 5
+        opts["showBorder"] = True
     return data, opts
 
 
